@@ -65,6 +65,11 @@ func (g *Gateway) HandleGatewayProtocol(w http.ResponseWriter, r *http.Request) 
 
 	connId := r.Header.Get(rdgConnectionIdKey)
 	x, found := c.Get(connId)
+	if found && r.Method == MethodRDGOUT && (r.Header.Get("Connection") == "upgrade" || r.Header.Get("Upgrade") == "websocket") {
+		// a websocket connection is a tunnel of its own: it never joins a legacy tunnel
+		// that happens to be remembered under the same connection id
+		found = false
+	}
 	if !found {
 		t = &Tunnel{
 			RDGId:      connId,
@@ -191,6 +196,12 @@ func (g *Gateway) handleLegacyProtocol(w http.ResponseWriter, r *http.Request, t
 
 	id := identity.FromRequestCtx(r)
 	if r.Method == MethodRDGOUT {
+		if t.transportOut != nil {
+			// a legacy tunnel has one RDG_OUT_DATA channel: a further one must not replace it
+			log.Printf("RDG_OUT_DATA for connection %s which already has an RDG_OUT_DATA channel", t.RDGId)
+			http.Error(w, "RDG_OUT_DATA channel already established", http.StatusBadRequest)
+			return
+		}
 		out, err := transport.NewLegacy(w)
 		if err != nil {
 			log.Printf("cannot hijack connection to support RDG OUT data channel: %s", err)
